@@ -32,7 +32,7 @@ MUTS = [m for m in pdbtext.MUTATIONS if m != "endmdl_only"]
 
 
 def cases(tier, seed):
-    n, per = (40, 25) if tier == "quick" else (500, 50)
+    n, per = (40, 25) if tier == "quick" else (2000, 50)
     return [{"seed": seed * 8009 + i, "n": per} for i in range(n)]
 
 
